@@ -72,13 +72,60 @@ def projection_part(rep, tier):
             "embeddings": 5, "binding_selftest": {"duplicate_under_unique_flagged": True}, "checker_cmd": tr.cmd}
 
 
+def join_part(rep, tier):
+    """Uniqueness through joins (spec/JoinCases.tla): l(x, n) JOIN r(y, m) ON x = y in both operand orders, four join kinds,
+    x / y declared UNIQUE or not, every pair of key columns of up to three values honouring the constraints; compiled by
+    the real code, executed on SQLite, judged by TLC with the relational trace specification (UniqueHolds at every node)."""
+    import os
+    import common as C
+    import relenc
+    r = C.tlc("MC_JoinCases", "MC_JoinCases.cfg", "c14_join_cases", workers=4, timeout=1200, constants={"Thin": 4 if tier == "quick" else 1},
+              extra=["-seed", str(C.seed() + 14)])
+    C.require_model_ok(r, "JoinCases.tla")
+    payloads = r.json_payloads("REPLAY")
+    INT = {"k": "int", "ivs": [[0, 2]]}
+    ROW = {"k": "int", "ivs": [[1, 3]]}
+    cases = []
+    for i, p in enumerate(payloads):
+        tables = [{"name": "l", "cols": [{"n": "x", "t": INT, "c": "unique" if p["lu"] else None}, {"n": "n", "t": ROW, "c": "unique"}], "rows": [[v, k + 1] for k, v in enumerate(p["l"])], "size": len(p["l"])},
+                  {"name": "r", "cols": [{"n": "y", "t": INT, "c": "unique" if p["ru"] else None}, {"n": "m", "t": ROW, "c": "unique"}], "rows": [[v, k + 1] for k, v in enumerate(p["r"])], "size": len(p["r"])}]
+        on = "r.y = l.x" if p["rev"] else "l.x = r.y"
+        kind = {"inner": "INNER", "left": "LEFT", "right": "RIGHT", "full": "FULL"}[p["kind"]]
+        sql = f"SELECT l.x AS lx, l.n AS ln, r.y AS ry, r.m AS rm FROM l {kind} JOIN r ON ({on})"
+        cases.append({"id": i, "sql": sql, "tables": tables, "okeys": [], "total": False})
+    wd = C.workdir("c14j")
+    obs = C.qv_sharded(["sql-run"], None, [{"id": c["id"], "sql": c["sql"], "tables": c["tables"]} for c in cases], wd, shards=8, timeout=3000, case_field="__none__")
+    by_id = {o["id"]: o for o in obs}
+    recs = [relenc.encode(by_id[c["id"]], c) for c in cases]
+    tp = os.path.join(wd, "trace.ndjson")
+    C.write_ndjson(tp, recs)
+    tr, fails, _ = relengine.validate(tp, "c14_join_judge")
+    kept = 0
+    for rec in recs:
+        for n in rec["nodes"]:
+            kept += sum(1 for col in n["cols"] if col["uniq"])
+    for f in fails:
+        i, judge, node = f[0], f[1], (f[2] if len(f) > 2 else 0)
+        if judge != "UniqueHolds":
+            continue        # the bounds judges on these cases belong to C07 (the size of joins under a unique key is a recorded finding there)
+        p, c = payloads[i - 1], cases[i - 1]
+        rep.fail(f"join/UniqueHolds/{p['kind']}/{'l' if p['lu'] else ''}{'r' if p['ru'] else ''}unique/{'reversed' if p['rev'] else 'straight'}",
+                 "judge UniqueHolds failed on a join", {"engine": "sql-run", "case": {"sql": c["sql"], "tables": c["tables"], "model": {k: p[k] for k in ("left_stays", "right_stays")}}})
+    return {"cases": len(cases), "compiled": sum(1 for x in recs if x["outcome"] == "ok"), "unique_flags_judged": kept,
+            "model_theorems": ["RuleSound", "RuleTight"], "checker_cmd": tr.cmd}
+
+
+def both_parts(rep, tier):
+    return {"projections": projection_part(rep, tier), "joins": join_part(rep, tier)}
+
+
 def run(tier, t0):
     return relengine.report(PID, tier, t0, [
         "SQLite 3.40 as the executor of original and rendered SQL (UDFs of harness/src/sqlx.rs)",
         "rank encoding of values and bounds (lib/relenc.py); TLC decides containment",
         "generated fragment: spec/QueryShapes.tla over two tables, values 0..2, NULL, three strings",
         "projections: the value of an expression is the library's own Expr::value on distinct universe points of the column",
-    ], extra=projection_part)
+    ], extra=both_parts)
 
 
 def replay(path):
